@@ -29,7 +29,7 @@ EXPLANATION = (
     "skeletons for every width and counts 0..40, write exactly ceil(count*width/8) bytes and read no output "
     "byte they have not written in the same call (a `|=` into an unzeroed tail would make the packed bytes "
     "depend on the buffer's previous contents). "
-    "(9) the dictionary encoders (int32, int64, byte arrays), executed abstractly on lists of a few hundred values with repeats, bucket-sharing values and prefix-related strings (allocator, growable buffers and the index encoder hooked), give every input the index of the slot holding its value and emit the distinct values once, in first-occurrence order, in page format (R34). Decides these clauses, not value equality of decode(encode(v)) for DELTA_*, dictionary or RLE.")
+    "(9) the dictionary encoders (int32, int64, byte arrays), executed abstractly on lists of a few hundred values with repeats, bucket-sharing values and prefix-related strings (allocator, growable buffers and the index encoder hooked), give every input the index of the slot holding its value and emit the distinct values once, in first-occurrence order, in page format (R34). (10) the varint writers and readers of rle.c, delta.c and endian.h are LEB128 for every value on either side of a 7-bit boundary (R38). Decides these clauses, not value equality of decode(encode(v)) for DELTA_*, dictionary or RLE.")
 
 RLE = "src/encoding/rle.c"
 PL = "src/encoding/plain.c"
